@@ -8,6 +8,7 @@ S5  property oracle: the property's own clauses evaluated on the Rust outputs
 import math
 from vlib.common import *
 from vlib.fresh import up_to_date
+from vlib.c19_timebox import run_timeboxed_cases
 
 TOL = 1e-12
 WIDTH = ["Bartlett", "Blackman", "Connes", "Cosine", "Hamming", "Welch"]
@@ -125,6 +126,15 @@ def oracle(ctx, obs):
                           {"kind": "interpolate_panic", "n": len(vals)}, {"values": vals, "z": fh(o["z"]), "msg": o["msg"]})
         elif k == "dom":
             oracle_dom(ctx, o)
+        elif k == "count":
+            period, L, n = fh(o["period"]), fh(o["L"]), o["n"]
+            ctx.seen(("count", o["period"], o["L"]))
+            ctx.count("count:near_integer")
+            want, comparable = expected_count(o["L"], o["period"])
+            if comparable and n != want:
+                ctx.violation("S5", f"PeriodicPoling::new({period!r} m, Off).num_domains({L!r} m) = {n}, expected ceil(L/period) = {want} "
+                              f"(L/period = {o['k']} * (1 {'+' if fh(o['e']) >= 0 else '-'} {abs(fh(o['e']))!r}))", {"kind": "count", "window": "Off"},
+                              {"period_m": period, "crystal_length_m": L, "num_domains": n, "expected": want})
         elif k == "dom_panic":
             ctx.violation("S5", f"poling_domains panicked for period {fh(o['period'])!r} m, length {fh(o['L'])!r} m, {ap_desc(o['ap'])}: {o['msg']}",
                           {"kind": "dom_panic", "window": o["ap"]["kind"]}, {"period_m": fh(o["period"]), "crystal_length_m": fh(o["L"]), "window": ap_plain(o["ap"]), "msg": o["msg"]})
@@ -150,6 +160,16 @@ def oracle(ctx, obs):
                               {"kind": "config_spelling", "spelling": o["spelling"]}, o)
 
 
+def expected_count(L_hex, period_hex):
+    """(ceil of the exact quotient of the two f64 inputs, comparable?) — not comparable only when the binary64 quotient L/period itself
+    rounds to an integer although the exact quotient is not one (then f64::ceil of the rounded quotient legitimately differs)"""
+    L, p = frac_of_hex(L_hex), abs(frac_of_hex(period_hex))
+    ratio = L / p
+    q = fh(L_hex) / abs(fh(period_hex))          # IEEE division: the correctly rounded quotient, as in Rust
+    comparable = not (q == math.floor(q) and ratio.denominator != 1)
+    return math.ceil(ratio), comparable
+
+
 def oracle_dom(ctx, o):
     period, L, ap, n = fh(o["period"]), fh(o["L"]), o["ap"], o["n"]
     ctx.seen(("dom", o["period"], o["L"], json.dumps(ap, sort_keys=True)))
@@ -157,10 +177,8 @@ def oracle_dom(ctx, o):
     base = {"period_m": period, "crystal_length_m": L, "window": ap_plain(ap), "num_domains": n}
     call = f"PeriodicPoling::new({period!r} m, {ap_desc(ap)})"
     sigk = {"window": ap["kind"]}
-    ratio = frac_of_hex(o["L"]) / abs(frac_of_hex(o["period"]))
-    want = math.ceil(ratio)
-    near = abs(ratio - round(ratio)) <= Fraction(1, 10**9) * max(1, round(ratio))
-    if n != want and not (near and abs(n - want) <= 1):
+    want, comparable = expected_count(o["L"], o["period"])
+    if comparable and n != want:
         ctx.violation("S5", f"{call}.num_domains({L!r} m) = {n}, expected ceil(L/period) = {want}", dict(kind="count", **sigk), dict(base, expected=want))
     if o["len_domains"] != n or o["len_lengths"] != n:
         ctx.violation("S5", f"{call}: domain list has {o['len_domains']} entries and the length list {o['len_lengths']}, but num_domains = {n}",
@@ -184,6 +202,8 @@ def oracle_dom(ctx, o):
         rep = dict(base, index=i, pair=[p, q], centre_z=zc, window_at_centre=a)
         if not (abs(zc - ((2 * i + 1) / n - 1)) <= TOL):
             ctx.violation("S5", f"{call}: domain {i} of {n} is evaluated at z = {zc!r}, not at its centre {(2*i+1)/n-1!r}", dict(kind="centre_z", **sigk), rep)
+        if abs(a) > 1:
+            continue   # outside the clause's scope (acos is undefined there)
         if abs(p + q - 1) > TOL or not (0 <= p <= 1 and 0 <= q <= 1):
             ctx.violation("S5", f"{call}.poling_domains({L!r} m)[{i}] = ({p!r}, {q!r}): fractions must lie in [0,1] and sum to 1", dict(kind="sum", **sigk), rep)
             continue
@@ -328,10 +348,9 @@ def correspondence(ctx, obs, label, max_win=None):
     for j, o in enumerate([o for o in obs if o["kind"] == "dom"]):
         period, L, n = frac_of_hex(o["period"]), frac_of_hex(o["L"]), o["n"]
         sp = frac_of_hex(o["stored_period"])
-        ratio = L / sp
-        near = abs(ratio - round(ratio)) <= Fraction(1, 10**9) * max(1, round(ratio))
+        _want, comparable = expected_count(o["L"], o["stored_period"])
         st = f"(On {coq_q(sp)} {'POSITIVE' if period > 0 else 'NEGATIVE'} {ap_coq(o['ap'])})"
-        if not near:
+        if comparable:
             add(f"c{j}", f"pp_num_domains {st} {coq_q(L)} = IZR ({n})%Z", "case_count", ("count", o))
         for e in o["entries"]:
             i = e["i"]
@@ -355,6 +374,11 @@ def correspondence(ctx, obs, label, max_win=None):
             else:
                 tac = "unfold domain_centre; unfold_windows; repeat split; interval with (i_prec 80)"
             add(f"d{j}_{i}", goal, tac, ("entry", o, e))
+    for j, o in enumerate([o for o in obs if o["kind"] == "count"]):
+        _want, comparable = expected_count(o["L"], o["period"])
+        if comparable:
+            st = f"(On {coq_hex(o['period'])} POSITIVE ApOff)"
+            add(f"n{j}", f"pp_num_domains {st} {coq_hex(o['L'])} = IZR ({o['n']})%Z", "case_count", ("count", dict(o, ap={"kind": "Off"})))
     ju = 0
     for o in [o for o in obs if o["kind"] == "upd"]:
         prev = o["init"]["state"]
@@ -402,6 +426,82 @@ def correspondence(ctx, obs, label, max_win=None):
     return nbad
 
 
+# ------------------------------------------------------------------------------------------------ whole domain lists (thorough)
+def full_lists(ctx, obs, chunk=40, budget_s=420):
+    """every entry of a few long domain lists (up to 1e5) against the generated poling_domains, in the inverted form
+    cos(2 pi d) = 1 - 2 a(z_c)^2 (interval goals, `chunk` entries per goal); sums, ranges and the order of each pair are exact
+    rational checks here.  Returns the number of entries compared."""
+    goals, meta, total = [], {}, 0
+    for j, o in enumerate([x for x in obs if x["kind"] == "dom_full"]):
+        n, ap, L, period = o["n"], o["ap"], frac_of_hex(o["L"]), fh(o["period"])
+        pairs = o["pairs"]
+        ctx.seen(("dom_full", o["period"], o["L"], json.dumps(ap, sort_keys=True)))
+        ctx.count("dom_full:entries", len(pairs) // 2)
+        base = {"period_m": period, "crystal_length_m": float(L), "window": ap_plain(ap), "num_domains": n}
+        call = f"PeriodicPoling::new({period!r} m, {ap_desc(ap)}).poling_domains({float(L)!r} m)"
+        want = math.ceil(L / abs(frac_of_hex(o["period"])))
+        if n != want or len(pairs) != 2 * n:
+            ctx.violation("S5", f"{call} has {len(pairs)//2} entries, num_domains = {n}, expected ceil(L/period) = {want}", {"kind": "count", "window": ap["kind"]}, base)
+            continue
+        ds = []
+        bad = None
+        for i in range(n):
+            p, q = frac_of_hex(pairs[2 * i]), frac_of_hex(pairs[2 * i + 1])
+            d = min(p, q)
+            second_half = 2 * i + 1 > n
+            if abs(p + q - 1) > Fraction(1, 10**12) or not (0 <= p <= 1 and 0 <= q <= 1) or d > Fraction(1, 2) + Fraction(1, 10**12) \
+                    or (p != q and (p < q) == second_half):
+                bad = (i, float(p), float(q))
+                break
+            ds.append(d)
+        if bad:
+            ctx.violation("S5", f"{call}[{bad[0]}] = ({bad[1]!r}, {bad[2]!r}): fractions must lie in [0,1], sum to 1, and the narrower one comes first "
+                          f"before the crystal centre and second after it", {"kind": "sum", "window": ap["kind"]}, dict(base, index=bad[0], pair=[bad[1], bad[2]]))
+            continue
+        total += n
+        apc, Lc = ap_coq(ap), coq_q(L)
+        # chunk order: a fixed stride permutation, so that under a time budget the compared chunks are spread over the whole list
+        starts = list(range(0, n, chunk))
+        stride = 7919 if len(starts) % 7919 else 7907
+        starts = [starts[(k * stride) % len(starts)] for k in range(len(starts))]
+        for c0 in starts:
+            idx = range(c0, min(n, c0 + chunk))
+            parts, tacs = [], []
+            for i in idx:
+                a_term = f"integration_constant {apc} (domain_centre (IZR ({n})%Z) (IZR ({i})%Z)) {Lc}"
+                parts.append(f"Rabs (cos (2 * PI * {coq_q(ds[i])}) - (1 - 2 * ({a_term}) ^ 2)) <= 1e-12")
+                if ap["kind"] == "Interpolate" and len(ap["values"]) > 0:
+                    nv = len(ap["values"])
+                    ii = Fraction(1, 2) * (Fraction(2 * i + 1, n)) * (nv - 1)
+                    tacs.append(f"unfold domain_centre; case_interp ({nv})%Z ({math.floor(ii)})%Z ({math.ceil(ii)})%Z; interval with (i_prec 64)")
+                else:
+                    tacs.append("unfold domain_centre; unfold_windows; interval with (i_prec 64)")
+            goal = " /\\ ".join(parts)
+            tac = tacs[-1]
+            for t in reversed(tacs[:-1]):
+                tac = f"split; [{t} | {tac}]"
+            cid = f"f{j}_{c0}"
+            goals.append((cid, goal, tac))
+            meta[cid] = (o, c0, len(idx))
+    if not goals:
+        return 0
+    res, unchecked = run_timeboxed_cases(ctx, "C19full", IMPORTS, goals, budget_s)
+    nun = sum(meta[c][2] for c in unchecked if c in meta)
+    ctx.cov["full_lists"] = {"entries_total": total, "entries_compared_in_coq": total - nun, "entries_unchecked_time_budget": nun,
+                             "lists": [o["n"] for o in obs if o["kind"] == "dom_full"]}
+    if nun:
+        ctx.note(f"whole-list comparison: {nun} of {total} entries were not reached within the {budget_s}s budget (machine load); {total - nun} compared")
+    for cid, ok in res.items():
+        if ok or cid not in meta:
+            continue
+        o, c0, k = meta[cid]
+        ctx.case_failures.append({"chunk": cid})
+        ctx.violation("S4", f"generated poling_domains and implementation disagree somewhere in entries {c0}..{c0+k-1} of {o['n']} ({ap_desc(o['ap'])})",
+                      {"kind": "model_mismatch", "what": "full_list", "window": o["ap"]["kind"]},
+                      {"period_m": fh(o["period"]), "crystal_length_m": fh(o["L"]), "window": ap_plain(o["ap"]), "first_index": c0, "entries": k}, found_input=False)
+    return total
+
+
 # ------------------------------------------------------------------------------------------------ pipeline
 def run(ctx):
     binp = build_harness(ctx)
@@ -415,7 +515,7 @@ def run(ctx):
     quick = ctx.tier == "quick"
     n = 12 if quick else 60
     maxd = 3000 if quick else 100000
-    obs = run_harness(ctx, binp, ["c19", ctx.seed, n, maxd])
+    obs = run_harness(ctx, binp, ["c19", ctx.seed, n, maxd, 0 if quick else 4])
     oracle(ctx, obs)
     for o in [x for x in obs if x["kind"] == "win"][:2] + [x for x in obs if x["kind"] == "dom"][:2]:
         if o["kind"] == "win":
@@ -425,6 +525,8 @@ def run(ctx):
                         "first_pair": [fh(x) for x in o["entries"][0]["e"]] if o["entries"] else None})
     if up_to_date("Gen/Poling.vo", "Proofs/C19_tac.vo"):
         correspondence(ctx, obs, "", max_win=300 if quick else 2500)
+        if not quick:
+            full_lists(ctx, obs)
     else:
         ctx.note("correspondence cases skipped: the generated model or the case tactics are not up to date with this run "
                  "(a proof obligation upstream is broken; that obligation is the finding)")
@@ -446,8 +548,8 @@ def run(ctx):
         "Gaussian half maximum at +-FWHM/2": "proved + measured 1e-12",
         "interpolate: end samples, piecewise linear, any sample vector": "proved + measured 1e-12",
         "Off = 1": "proved",
-        "count = ceil(L/period)": "proved (real division) + measured; inputs with L/period within 1e-9 of an integer accept either neighbour (float division)",
-        "fractions in [0,1], sum 1, sin(pi d) = |a(z_c)|, d <= 1/2, order flips at the centre": "proved for window values in [-1,1] + measured (cos(2 pi d) = 1 - 2 a^2 to 1e-12)",
+        "count = ceil(L/period)": "proved (real division) + measured against the exact-rational ceiling of the f64 inputs, incl. L = k period (1 +- e), e down to 3e-9; skipped only when the binary64 quotient itself rounds to an integer",
+        "fractions in [0,1], sum 1, sin(pi d) = |a(z_c)|, d <= 1/2, order flips at the centre": "proved for window values in [-1,1] + measured (cos(2 pi d) = 1 - 2 a^2 to 1e-12), incl. windows that are negative at domain centres (widths < 1, negative samples)",
         "updates preserve the other attribute and the sign convention (all sequences)": "proved by induction over operation sequences (non-zero periods) + measured exactly",
         "config <-> runtime mapping of kinds": "proved (round trip, kinds, spellings unambiguous) + measured",
         "binary64 rounding of the window formulas": "measured (1e-12), not proved"}
